@@ -1,6 +1,7 @@
 package main
 
 import (
+	"encoding/json"
 	"fmt"
 	"os"
 	"os/exec"
@@ -89,6 +90,16 @@ func selfTestImpl(prop, dir string) any {
 			args := []string{"-property", prop, "-dir", dir, "-mutant", b.File + "::" + b.Old + "::" + b.New}
 			if b.All {
 				args = append(args, "-mutant-all")
+			}
+			if len(b.Edits) > 0 { // a multi-hunk refactor
+				js, _ := json.Marshal(map[string]any{"File": b.File, "Edits": b.Edits})
+				tf, err := os.CreateTemp("", "bandcheck-edit-*.json")
+				if err == nil {
+					tf.Write(js)
+					tf.Close()
+					defer os.Remove(tf.Name())
+					args = []string{"-property", prop, "-dir", dir, "-mutant-json", tf.Name()}
+				}
 			}
 			out, _ := exec.Command(exe, args...).CombinedOutput()
 			text := string(out)
